@@ -184,6 +184,8 @@ impl V1 {
         let transaction_id = msg.transaction_id;
         spawn(async move {
             debug!("Receiving lock confirmation for transaction {transaction_id:?} …");
+            #[cfg(feature = "verif")]
+            crate::verif::perturb("acquire-lock-waiter").await;
 
             match rx.await {
                 Ok(_) => {
